@@ -116,7 +116,7 @@ func execAccept(p mseParams, m map[string]string) string {
 	ih := unhex(m["ih"])
 	ourID := unhex(m["ourid"])
 	probe := unhex(m["probe"])
-	ea, eb, a2b, b2a := newDuplex(nil, parseChunks(m["cb"]))
+	ea, eb, a2b, b2a := newDuplex(nil, mseParseChunks(m["cb"]))
 	sr, restore := installRand()
 	defer restore()
 	cancel := watchdog(5*time.Second, ea, eb)
@@ -384,7 +384,7 @@ func (d *dialRemote) serve(r *remoteConn, kind string, k int) {
 	if kind == "trunc" {
 		var plain []byte
 		plain = append(plain, make([]byte, 8)...)
-		plain = append(plain, be32(sel)...)
+		plain = append(plain, mseBe32(sel)...)
 		plain = append(plain, be16(100)...)
 		plain = append(plain, make([]byte, 10)...)
 		r.write(enc.x(plain))
@@ -392,7 +392,7 @@ func (d *dialRemote) serve(r *remoteConn, kind string, k int) {
 	}
 	var plain []byte
 	plain = append(plain, make([]byte, 8)...)
-	plain = append(plain, be32(sel)...)
+	plain = append(plain, mseBe32(sel)...)
 	plain = append(plain, be16(d.padD)...)
 	plain = append(plain, make([]byte, d.padD)...)
 	r.write(enc.x(plain))
